@@ -153,6 +153,9 @@ def oracle(case):
 
 def _oracle(case):
     o, err = _measure(case)
+    if err is not None and err.startswith("DomainMismatch"):
+        return ("domain of the composed likelihood is not the union of the domains of its parts: " + err.split(":", 1)[1].strip(),
+                sig(case, "domain"))
     if err is not None:
         return (f"energy raised on a valid input: {err}", sig(case, "error", error=err.split(":")[0]))
     n = len(o["grad"])
